@@ -236,6 +236,8 @@ QUERIES = (
     'total_time', 'speed', 'tracer_diffusivity', 'vibration_amplitude', 'attempt_frequency', 'particle_density', 'haven_ratio',
     'to_volume', 'transitions', 'rdf', 'get_structure', 'len_species', 'center_of_mass_q', 'iterate', 'drift_floating',
 ) + EXTRA_QUERIES
+# the discontinuous analyses (site assignment, voxel binning) are the ones most sensitive to hidden-state noise
+QUERY_WEIGHTS = {q: (4 if q == 'transitions' else 2 if q in ('to_volume', 'rdf') else 1) for q in QUERIES}
 DISPLACEMENT_BASED = {
     'cumulative_displacements', 'distances_from_base_position', 'mean_squared_displacement', 'drift', 'drift_fixed', 'speed', 'tracer_diffusivity',
     'vibration_amplitude', 'attempt_frequency', 'haven_ratio', 'center_of_mass_q', 'drift_floating',
@@ -275,7 +277,7 @@ def generate(run_seed: int, tier: str = 'quick', stream: str = 'seq') -> dict:
         if kind == 'PERTURB':
             ops.append({'op': 'PERTURB', 'obj': ref(), 'how': rng.pick(PERTURB), 'client': client})
         elif kind == 'QUERY':
-            q = rng.pick(QUERIES)
+            q = rng.weighted(QUERY_WEIGHTS)
             if q in disabled_q:
                 continue
             op = {'op': 'QUERY', 'obj': ref(), 'q': q, 'client': client}
